@@ -17,7 +17,9 @@ package c12
 
 import (
 	"fmt"
+	"os"
 	"strings"
+	"sync"
 
 	"pgregory.net/rapid"
 
@@ -84,8 +86,10 @@ func capEdits() int {
 const capCfgEntries = 1025 // configured headers / URIs / hosts of one listener
 
 // isScaleCase: about one case in `one` (mid-range hit of a uniform draw).
+// VERIF_C12_NOSCALE=1 switches the dimension off (to measure what it costs).
 func isScaleCase(t *rapid.T, one int) bool {
-	return rapid.IntRange(0, one-1).Draw(t, "scale-case") == one/2+1
+	hit := rapid.IntRange(0, one-1).Draw(t, "scale-case") == one/2+1
+	return hit && os.Getenv("VERIF_C12_NOSCALE") == ""
 }
 
 // ---------------------------------------------------------------------------- bulk of requests
@@ -327,4 +331,40 @@ func (l lazyStr) String() string {
 		s = s[:3500] + " ...[" + fmt.Sprint(len(s)-5000) + " bytes]... " + s[len(s)-1500:]
 	}
 	return s
+}
+
+var (
+	scaleSeenMu sync.Mutex
+	scaleSeen   = map[string]map[string]int{}
+)
+
+// noteScale tallies the scale:* labels of a classified case into the evidence's "extra"
+// block (the class histogram keeps the 60 most frequent labels only, and a scale class
+// is rare by design).  The driver keeps the block of one shard: the tallies are those of
+// one shard of the run, not of all of them.
+func noteScale(sub string, labels []string) {
+	var hit []string
+	for _, l := range labels {
+		if strings.HasPrefix(l, "scale:") && !strings.HasPrefix(l, "scale:cfg-header-value-size:64-129") {
+			hit = append(hit, l)
+		}
+	}
+	if len(hit) == 0 {
+		return
+	}
+	scaleSeenMu.Lock()
+	defer scaleSeenMu.Unlock()
+	m := scaleSeen[sub]
+	if m == nil {
+		m = map[string]int{}
+		scaleSeen[sub] = m
+	}
+	for _, l := range hit {
+		m[l]++
+	}
+	cp := make(map[string]int, len(m))
+	for k, v := range m {
+		cp[k] = v
+	}
+	core.SetExtra("scale_classes_reached_in_one_shard", cp)
 }
